@@ -46,7 +46,13 @@ def run_impl(ld, cfg, lens, as_float=False):
     if (len(lens) + bs) % 2:
         # arguments that equal their documented default (None / False) are left out
         kw = {k: v for k, v in kw.items() if v is not None and v is not False}
-    ds = DS().batch_dynamic_time_series_bucket(batch_size=bs, len_key='len', max_padding_rate=conv(rate), **kw)
+    if (len(lens) + bs + (exp or 0)) % 3 == 0:
+        # every argument by POSITION, in the documented order (batch_size, len_key, max_padding_rate, max_total_size, expiration,
+        # max_buffered_examples, drop_incomplete, sort_key, reverse_sort)
+        ds = DS().batch_dynamic_time_series_bucket(bs, 'len', conv(rate), None if mts is None else conv(mts), exp, maxbuf, drop,
+                                                   None if sortmode == 0 else 'len', sortmode == 2)
+    else:
+        ds = DS().batch_dynamic_time_series_bucket(batch_size=bs, len_key='len', max_padding_rate=conv(rate), **kw)
     out = []
     # what is iterated is the object itself, a copy of it, a copy of a pipeline built on it, or the profiler's internal copy
     # (deterministic choice per configuration): copies keep every parameter
